@@ -121,18 +121,26 @@ def deliberate_refusal(e):
     if not isinstance(best, ast.Raise) or best.exc is None:
         return False
     # the raised class must be the class caught (rules out a TypeError thrown while *building*
-    # the message of a `raise ValueError(f"...")`)
+    # the message of a `raise ValueError(f"...")`); a raise through a helper (`raise self._err(...)`)
+    # whose target is not an exception class is accepted
     exc = best.exc
-    name = None
     if isinstance(exc, ast.Call):
         exc = exc.func
     if isinstance(exc, ast.Name):
-        name = exc.id
-    elif isinstance(exc, ast.Attribute):
-        name = exc.attr
-    if name is None:
+        import builtins
+        target = frame.f_locals.get(exc.id, frame.f_globals.get(exc.id, getattr(builtins, exc.id, None)))
+        if isinstance(target, type) and issubclass(target, BaseException):
+            return isinstance(e, target)
+        if isinstance(target, BaseException):
+            return target is e
         return True
-    return name in [c.__name__ for c in type(e).__mro__]
+    if isinstance(exc, ast.Attribute):
+        # e.g. `raise module.SomeError(...)`: compare by class name when it names a class of the MRO, else accept
+        names = [c.__name__ for c in type(e).__mro__]
+        if exc.attr[:1].isupper() or exc.attr.endswith("Error"):
+            return exc.attr in names
+        return True
+    return True
 
 
 _AST_CACHE = {}
